@@ -97,14 +97,14 @@ def _exec_hist_py(scn: Dict[str, Any]) -> Dict[str, Any]:
     from sc62015.pysc62015.emulator import RegisterName as R
     # A: fresh
     emu, bus = core.new_py_core(scn)
-    a = core.py_run(emu, bus, scn["steps"])
+    a = core.py_run(emu, bus, scn["steps"], block_limit=0x400)
     # A2: a second fresh emulator (repeatability inside one process)
     emu2, bus2 = core.new_py_core(scn)
-    a2 = core.py_run(emu2, bus2, scn["steps"])
+    a2 = core.py_run(emu2, bus2, scn["steps"], block_limit=0x400)
     # B: prefix on the same emulator object, scramble, impose sigma, run X
     pscn = {"code": scn["pcode"], "state": scn["pstate"]}
     emu, bus = core.new_py_core(pscn)
-    pre = core.py_run(emu, bus, scn["psteps"])
+    pre = core.py_run(emu, bus, scn["psteps"], block_limit=0x400)
     touched = set()
     for rec in pre:
         for ad, _ in rec[13]:
@@ -123,7 +123,7 @@ def _exec_hist_py(scn: Dict[str, Any]) -> Dict[str, Any]:
     for name, v in scn["state"]["regs"].items():
         emu.regs.set(R[name], v)
     emu.state.halted = False
-    b = core.py_run(emu, bus, scn["steps"])
+    b = core.py_run(emu, bus, scn["steps"], block_limit=0x400)
     return {"a": a, "a2": a2, "b": b, "prefix_steps": len(pre), "prefix_ops": [rec[1] for rec in pre]}
 
 
